@@ -53,6 +53,17 @@ def judge(c, a, m):
         ok = relgen.canon_rows(rows) == relgen.canon_rows(mrows)
         mode = "bag"
     r["mode"] = mode
+    if not ok and "WITH " in a["sql"]:
+        # SQLite 3.40's query flattener has known wrong-result bugs (e.g. LEFT JOIN ... ON false-constant over an aggregated
+        # CTE); re-run with every CTE materialised and trust that answer when the two differ
+        sql2 = re.sub(r"\b(\w+) AS \(SELECT", r"\1 AS MATERIALIZED (SELECT", a["sql"])
+        n2, rows2, err2 = relgen.run_sqlite(c.schema_list, c.db, sql2)
+        if not err2 and rows2 != rows:
+            rows_m = rows2
+            ok2 = (rows_m == mrows) if mode == "seq" else (relgen.canon_rows(rows_m) == relgen.canon_rows(mrows))
+            if ok2:
+                r["engine_discrepancy"] = True
+                ok = True
     if not ok:
         r.update(status="rows-differ", detail=f"compared as {mode}")
         return r
@@ -124,6 +135,9 @@ def union_misaligned(sql):
     for top, bot in _select_lists_of_unions(sql):
         if (top == ["*"]) != (bot == ["*"]):
             return True
+        bare = lambda l: [x.split(" AS ")[-1].split(".")[-1] for x in l]
+        if sorted(bare(top)) == sorted(bare(bot)) and bare(top) != bare(bot):
+            return True
         if len(top) != len(bot):
             return True
         # explicit lists of base columns (u<i>, a<i>, b<i>, k<i>, c<i> in the generator's schema): same role per position
@@ -152,7 +166,7 @@ def classify(c, r, target="sql.sqlite"):
         # same number of explicit columns, but one branch was reordered (group keys first / pruning)
         if st == "rows-differ" and re.search(r"\bgroup\b", prql) and _select_lists_of_unions(sql):
             return "append-branches-misaligned"
-    if re.search(r"GROUP BY (?:[^()]*?, )?-?[0-9]+(?:,| |$)", sql) and (st == "rows-differ" or (st == "sqlite-error" and "GROUP BY" in det)):
+    if re.search(r"GROUP BY (?:[^()]*?, )?-?[0-9]+(?:,| |\)|$)", sql) and (st == "rows-differ" or (st == "sqlite-error" and "GROUP BY" in det)):
         return "group-by-constant-read-as-ordinal"
     if st == "sqlite-error":
         if "OFFSET" in re.sub(r"LIMIT [0-9]+ OFFSET [0-9]+", "", sql) and "syntax error" in det:
@@ -162,11 +176,11 @@ def classify(c, r, target="sql.sqlite"):
         m = re.match(r"OperationalError: no such column: (\S+)", det)
         if m:
             col = m.group(1).split(".")[-1]
-            if re.search(r"ORDER BY [^)]*\b" + re.escape(col) + r"\b", sql):
+            if re.search(r"ORDER BY [^)]*\b" + re.escape(col) + r"\b", sql) or re.search(r"\bsort\b", prql):
                 return "orderby-column-out-of-scope"
             if col.startswith("_expr_"):
                 return "helper-column-out-of-scope"
-    if st == "rows-differ" and "SELECT NULL FROM" in sql and re.search(r"\baggregate\b", prql):
+    if st in ("rows-differ", "sqlite-error") and "SELECT NULL FROM" in sql and re.search(r"\baggregate\b", prql):
         return "unused-aggregate-elided"
     if st == "column-count":
         exp = c.columns
